@@ -66,10 +66,23 @@ func (h *c06Handler) ServeHTTP(w http.ResponseWriter, r *http.Request) {
 	case 2:
 		var s []int
 		_ = s[h.stage+7] // runtime error
+	case 4: // error values that other code gives a special meaning
+		panic(http.ErrAbortHandler)
+	case 5:
+		panic(error(c06WrapErr{http.ErrAbortHandler}))
+	case 6:
+		panic(error(c06WrapErr{context.Canceled}))
+	case 7:
+		panic(nil)
 	default:
 		panic(c06PanicValue{42})
 	}
 }
+
+type c06WrapErr struct{ err error }
+
+func (w c06WrapErr) Error() string { return "wrapped" }
+func (w c06WrapErr) Unwrap() error { return w.err }
 
 func VerifC06_APIHandlerPanic() {
 	modules.SetStdErrReporting(false)
@@ -82,9 +95,13 @@ func VerifC06_APIHandlerPanic() {
 	if authFnSet == nil {
 		authFnSet = abool.New()
 	}
+	if rt.Symbolic() {
+		// (net/http's package init is not executed by the engine)
+		http.ErrAbortHandler = errors.New("net/http: abort Handler")
+	}
 	ch := make(chan *modules.ModuleError, 8)
 	modules.SetErrorReportingChannel(ch)
-	h := &c06Handler{stage: rt.Choice("stage", 6), kind: rt.Choice("kind", 4)}
+	h := &c06Handler{stage: rt.Choice("stage", 6), kind: rt.Choice("kind", 8)}
 	mh := &mainHandler{}
 	if rt.Symbolic() {
 		mh.mux = &mux.Router{}
@@ -110,7 +127,9 @@ func VerifC06_APIHandlerPanic() {
 		rt.Assert(isPanic, "apipanic/identifies-itself-as-a-panic")
 		rt.Assert(me.Severity == "panic", "apipanic/severity-panic")
 		rt.Assert(me.StackTrace != "", "apipanic/carries-a-stack-trace")
-		rt.Assert(me.PanicValue != nil, "apipanic/carries-the-panic-value")
+		if h.kind != 7 {
+			rt.Assert(me.PanicValue != nil, "apipanic/carries-the-panic-value")
+		}
 		if h.kind == 1 {
 			s, ok := me.PanicValue.(string)
 			rt.Assert(ok && s == "handler string panic", "apipanic/panic-value-is-the-one-raised")
